@@ -287,7 +287,13 @@ var variants = []variant{
 
 // the seven states of the property text, plus the one the calibration showed to
 // matter: a stream "opened" by a HEADERS block the server rejected as malformed
-var states = []string{"idle", "open", "half-closed-remote", "half-closed-remote-short-body", "half-closed-remote-short-body-trailers", "closed-end-stream", "closed-client-rst", "closed-server-rst", "reset-in-flight", "rejected-malformed-headers", ceState}
+var states = []string{"idle", "open", "half-closed-remote", "half-closed-remote-short-body", "half-closed-remote-short-body-trailers", "closed-end-stream", "closed-client-rst", "closed-server-rst", "reset-in-flight", "rejected-malformed-headers", ceState, lateEndState}
+
+// lateEndState (added after seeded change C13-K): the request declared content-length 5 and has delivered its 5
+// bytes WITHOUT END_STREAM; the handler has answered and returned. The unchanged server resets such a stream
+// with RST_STREAM(NO_ERROR) (then: closed by the server); a server that does not is in half-closed (local),
+// where the client's END_STREAM - by an empty DATA frame or by trailers - is legal and must not draw an error.
+const lateEndState = "response-finished-declared-body-complete-no-end-stream"
 
 // ceState: a frame that must draw a connection error (and nothing else) has been
 // sent while the client is not reading and the server's frame writer is blocked,
@@ -409,6 +415,10 @@ func runCell(limit uint32, state string, vr variant, others int, st *stats) *con
 		case "closed-client-rst":
 			c.exec(frameStep("open", postOpen(T, 5, "")))
 			c.exec(frameStep("client-rst", h2peer.RawFrame(3, 0, T, u32(8))))
+		case lateEndState:
+			c.exec(frameStep("open", postOpen(T, 5, "")))
+			c.exec(frameStep("whole-declared-body-no-end-stream", h2peer.RawFrame(0, 0, T, []byte("abcde"))))
+			c.exec(Step{Op: "release", SID: T})
 		case "closed-server-rst":
 			c.exec(frameStep("open", postOpen(T, 5, "")))
 			c.exec(frameStep("draw-stream-error", h2peer.RawFrame(8, 0, T, u32(0))))
